@@ -645,6 +645,18 @@ def install(ip):
         lists = [ip.iterate(x) for x in a]
         return PList([tuple(t) for t in zip(*lists)])
 
+    @fn("map")
+    def _map(ip, a, k):
+        f = a[0]
+        lists = [ip.iterate(x) for x in a[1:]]
+        from .eval_expr import _LazyIter
+        return _LazyIter([ip.call(f, list(t), {}) for t in zip(*lists)])
+
+    @fn("filter")
+    def _filter(ip, a, k):
+        f = a[0]
+        return PList([x for x in ip.iterate(a[1]) if ip.truthy(ip.call(f, [x], {}) if f is not None else x)])
+
     @fn("reversed")
     def _reversed(ip, a, k):
         return PList(list(reversed(ip.iterate(a[0]))))
